@@ -29,7 +29,7 @@ func isReadMethod(f *types.Func) bool {
 
 // ruleReadFull is shared by C08 and C07: partial Read results are never interpreted.
 func ruleReadFull(c *Ctx, p *core.Program, rule string) {
-	c.R.Rule(rule, "who-may-call: a Read([]byte)(int, error) method of any reader is called from library code only by a pure forwarder (a Read method that returns the callee's results unchanged); everything else obtains bytes through io.ReadFull / binary.ReadUvarint, so a short read is never interpreted as data. ReadByte is built on a full read of one byte")
+	c.R.Rule(rule, "who-may-call: library code calls no method of *bufio.Reader that exposes partially arrived data (Peek, Buffered, Discard, ReadSlice, ...), and a Read([]byte)(int, error) method of any reader is called from library code only by a pure forwarder (a Read method that returns the callee's results unchanged); everything else obtains bytes through io.ReadFull / binary.ReadUvarint, so a short read is never interpreted as data. ReadByte is built on a full read of one byte")
 	cfg := p.Cfg.Name
 	n, fwd := 0, 0
 	for _, fn := range p.Funcs() {
@@ -47,6 +47,19 @@ func ruleReadFull(c *Ctx, p *core.Program, rule string) {
 				continue
 			}
 			c.R.Bad(rule, key, cfg, p.Pos(call.Pos()), "a raw Read is used outside a forwarder: its partial result is interpreted, so decoding depends on how the transport segments the stream")
+		}
+	}
+	// bufio.Reader methods that expose partially arrived data
+	for _, fn := range p.Funcs() {
+		for _, call := range core.Calls(fn) {
+			f := core.CalleeFunc(call)
+			if f == nil || !core.IsMethod(f, "bufio", "Reader", f.Name()) {
+				continue
+			}
+			switch f.Name() {
+			case "Peek", "Buffered", "Discard", "ReadSlice", "ReadLine", "ReadBytes", "ReadString", "UnreadByte", "ReadRune", "UnreadRune", "ReadByte", "Read":
+				c.R.Bad(rule, core.CallKey(fn, call), cfg, p.Pos(call.Pos()), "library code calls (*bufio.Reader)."+f.Name()+": it sees only the bytes that have arrived so far, so the outcome depends on how the transport segments the stream (a value split across segments is mis-decoded or rejected)")
+			}
 		}
 	}
 	c.R.Count("raw Read call sites["+cfg+"]", n)
